@@ -17,7 +17,7 @@ NoRun == [op |-> "none"]
 AllSources ==
   { <<"P", d>> : d \in {"none", "expr"} \cup LitKinds } \cup { <<"nat", d>> : d \in {"none"} \cup LitKinds }
 MidSources == { <<"P", "none">>, <<"P", "int">>, <<"P", "str">>, <<"P", "char">>, <<"P", "expr">>, <<"nat", "int">>, <<"nat", "bool">> }
-FewSources == { <<"P", "none">>, <<"P", "int">>, <<"P", "str">>, <<"P", "expr">>, <<"nat", "int">> }
+FewSources == { <<"P", "none">>, <<"P", "int">>, <<"P", "int8">>, <<"P", "str">>, <<"P", "expr">>, <<"nat", "int">> }
 
 MCKindSet == {"struct", "enum", "union"}
 MCTypeOptSet(k) ==
